@@ -179,8 +179,8 @@ def generate(tpl_path, repo_root, out_path, canary=False):
     return res, text
 
 
-def run_verus(gen_path, rlimit=None, seed=None, timeout=900, extra=None):
-    cmd = [VERUS, os.path.basename(gen_path), '--output-json', '--time', '--error-format=json', '--multiple-errors', '5']
+def run_verus(gen_path, rlimit=None, seed=None, timeout=900, extra=None, multiple=5):
+    cmd = [VERUS, os.path.basename(gen_path), '--output-json', '--time', '--error-format=json', '--multiple-errors', str(multiple)]
     if rlimit:
         cmd += ['--rlimit', str(rlimit)]
     if seed is not None:
@@ -314,6 +314,13 @@ def verify_unit(unit, tpl_path, repo_root, workdir, canary=False, rlimit=None, s
     res, text = generate(tpl_path, repo_root, gen_path, canary=canary)
     cmd, rc, out, err, wall = run_verus(gen_path, rlimit=rlimit, seed=seed, timeout=timeout, extra=extra)
     ur = parse_run(unit, res, text, gen_path, cmd, rc, out, err, wall)
+    if rc != 124 and not ur.errors and not ur.compile_errors and any('rlimit' in u.lower() for u in ur.undecided):
+        # a resource limit hit while Verus kept searching for further errors of a function: retry once, stopping at the first error and
+        # with a larger budget; a failing obligation found by the retry is a failing obligation (never the other way round)
+        cmd, rc, out, err, wall2 = run_verus(gen_path, rlimit=(rlimit or 10) * 3, seed=seed, timeout=timeout, extra=extra, multiple=1)
+        ur2 = parse_run(unit, res, text, gen_path, cmd, rc, out, err, wall + wall2)
+        if ur2.errors or not ur2.undecided:
+            ur = ur2
     if rc == 124:
         ur.undecided.append('verus timeout after %ds' % timeout)
     return ur
